@@ -46,6 +46,9 @@ type cliScen struct {
 	tok    int
 	stepNo int
 	total  int
+	// noInject: no transport faults around single Sends (the exhaustive reply scripts of the thorough
+	// tier enumerate the permutations of exactly exN replies, so every request must reach the peer)
+	noInject bool
 }
 
 func (s *cliScen) newTok() string { s.tok++; return strconv.Itoa(s.tok) }
@@ -61,7 +64,7 @@ func (s *cliScen) pickParked(n int) int {
 // channel's Send a transport fault may be injected (fault at that operation index).
 func (s *cliScen) release(i int) {
 	site := s.r.sc.siteOf(i)
-	inject := s.f.faultOf16 > 0 && (site == "cli.send" || site == "cli.cbreply") && !s.r.sendFail && s.g.chance(s.f.faultOf16, 16)
+	inject := s.f.faultOf16 > 0 && !s.noInject && (site == "cli.send" || site == "cli.cbreply") && !s.r.sendFail && s.g.chance(s.f.faultOf16, 16)
 	if inject {
 		s.r.sendFault(true)
 	}
@@ -71,7 +74,13 @@ func (s *cliScen) release(i int) {
 	}
 }
 
+func (s *cliScen) racing() bool { return s.policy == "race" }
+
 func (s *cliScen) drain() {
+	if s.racing() {
+		s.r.settle()
+		return
+	}
 	for s.r.sc.nparked() > 0 {
 		s.release(s.pickParked(s.r.sc.nparked()))
 	}
@@ -80,6 +89,13 @@ func (s *cliScen) drain() {
 }
 
 func (s *cliScen) sched() {
+	if s.racing() {
+		// mostly keep racing; now and then let everything settle
+		if s.g.chance(1, 4) {
+			s.r.settle()
+		}
+		return
+	}
 	if s.policy == "fifo" || s.g.chance(1, 4) {
 		s.drain()
 		return
@@ -355,6 +371,7 @@ func (s *cliScen) scriptScenario(idx int) {
 		exN, exPerm, exMask, exhaustive = exhaustiveCase(idx)
 	}
 	if exhaustive {
+		s.noInject = true
 		for i := 0; i < exN; i++ {
 			r.startOp("call", []cspec{s.spec(false)}, false)
 			s.sched()
@@ -438,6 +455,10 @@ func (s *cliScen) scriptScenario(idx int) {
 
 func (s *cliScen) run(idx int) {
 	s.sched()
+	if s.racing() && (s.f.scriptOf4 == 0 || (idx/6)%3 == 0) {
+		s.raceRun()
+		return
+	}
 	if s.f.scriptOf4 > 0 && (idx%4 < s.f.scriptOf4 || (s.tier == "thorough" && idx < cliExhaustive)) {
 		s.scriptScenario(idx)
 		return
@@ -453,6 +474,10 @@ func (s *cliScen) run(idx int) {
 // side (EOF), every context ends.  After that no goroutine may be left.
 func (s *cliScen) epilogue() {
 	r := s.r
+	if s.racing() {
+		r.quiet = true // from here on every action is followed by quiescence
+		r.ch.auto.Store(false)
+	}
 	s.drain()
 	for {
 		r.mu.Lock()
@@ -488,6 +513,217 @@ func (s *cliScen) epilogue() {
 		op.cancel()
 	}
 	r.mu.Unlock()
+}
+
+// ---------------------------------------------------------------------------
+// racing mode (policy "race"): rounds of actions issued back to back
+
+// startKnown starts a Call or a small Batch, lets its request reach the peer and returns the
+// operation and the ids the peer saw for it (none if the transmission failed).
+func (s *cliScen) startKnown() (*cliOp, []string) {
+	g, r := s.g, s.r
+	before := len(s.seen())
+	dl := g.chance(1, 4)
+	var n int
+	if g.chance(2, 3) {
+		n = r.startOp("call", []cspec{s.spec(false)}, dl)
+	} else {
+		var specs []cspec
+		for i := 1 + g.intn(3); i > 0; i-- {
+			specs = append(specs, s.spec(g.chance(1, 4)))
+		}
+		n = r.startOp("batch", specs, dl)
+	}
+	r.settle()
+	r.mu.Lock()
+	op := r.ops[n]
+	r.mu.Unlock()
+	return op, s.seen()[before:]
+}
+
+// feedReplies feeds the replies for ids: one record, or one record per id.
+func (s *cliScen) feedReplies(ids []string) {
+	if len(ids) == 0 {
+		return
+	}
+	var ms []cmember
+	for _, id := range ids {
+		ms = append(ms, s.replyFor(id))
+	}
+	if len(ms) > 1 && s.g.chance(1, 2) {
+		for _, i := range nthPerm(len(ms), s.g.intn(fact(len(ms)))) {
+			s.r.feedRecord(s.g.chance(1, 5), ms[i:i+1])
+		}
+		return
+	}
+	s.r.feedRecord(len(ms) > 1 || s.g.chance(1, 5), ms)
+}
+
+// endCtx ends the context of op: by its deadline if it has one and that is the next to fire, else
+// by cancelling it.
+func (s *cliScen) endCtx(op *cliOp) {
+	if !op.deadline.IsZero() && s.r.nextDeadlineOp() == op && s.g.chance(3, 4) {
+		s.r.ctxDeadline(op)
+		return
+	}
+	s.r.ctxCancel(op.n)
+}
+
+// duelRound: 1-3 operations whose requests have reached the peer; then, for each of them and
+// without waiting in between, the end of its context and the peer's reply to that very request,
+// in either order (sometimes with a second reply, sometimes only one of the two).
+func (s *cliScen) duelRound() {
+	g := s.g
+	type duel struct {
+		op  *cliOp
+		ids []string
+	}
+	var ds []duel
+	s.r.settle()
+	for i := 1 + g.intn(3); i > 0; i-- {
+		r := s.r
+		r.mu.Lock()
+		nops := len(r.ops)
+		r.mu.Unlock()
+		if nops >= 24 {
+			break
+		}
+		op, ids := s.startKnown()
+		ds = append(ds, duel{op, ids})
+	}
+	// between the two actions of a duel: nothing, or a few yields (the second action then meets the
+	// consequences of the first at another stage)
+	gap := func() { cyield(pick(g, []int{0, 0, 0, 1, 3, 8, 20, 50})) }
+	for _, d := range ds {
+		switch x := g.intn(10); {
+		case x < 4:
+			s.endCtx(d.op)
+			gap()
+			s.feedReplies(d.ids)
+		case x < 8:
+			s.feedReplies(d.ids)
+			gap()
+			s.endCtx(d.op)
+		case x < 9:
+			s.endCtx(d.op)
+			s.feedReplies(d.ids)
+			gap()
+			s.feedReplies(d.ids)
+		default:
+			s.feedReplies(d.ids)
+		}
+	}
+}
+
+func (s *cliScen) liveOps() []*cliOp {
+	r := s.r
+	r.mu.Lock()
+	defer r.mu.Unlock()
+	var live []*cliOp
+	for _, op := range r.ops {
+		if !op.ended && op.kind != "close" {
+			live = append(live, op)
+		}
+	}
+	return live
+}
+
+// burstRound: the peer answers at once (from inside Send, before the client has registered the
+// request); operations are started back to back, some of their contexts end at once, transport
+// faults come and go.
+func (s *cliScen) burstRound() {
+	g, r := s.g, s.r
+	r.ch.auto.Store(g.chance(3, 4))
+	for i := 2 + g.intn(4); i > 0; i-- {
+		r.mu.Lock()
+		nops := len(r.ops)
+		r.mu.Unlock()
+		if nops >= 24 {
+			break
+		}
+		if g.chance(1, 5) {
+			r.sendFault(!r.sendFail)
+		}
+		s.startRandomOp()
+		if g.chance(1, 3) {
+			r.ctxCancel(nops)
+		}
+		if g.chance(1, 6) {
+			r.settle()
+		}
+	}
+	if r.sendFail {
+		r.sendFault(false)
+	}
+	r.ch.auto.Store(false)
+}
+
+// stopRound: what stops the client (Close, a Recv error, a record that is not JSON) races with
+// replies to the outstanding requests and with the ends of their contexts.
+func (s *cliScen) stopRound() {
+	g, r := s.g, s.r
+	for i := g.intn(3); i > 0; i-- {
+		if i == 1 {
+			r.settle()
+		}
+		s.startKnown()
+	}
+	known := s.seen()
+	var acts []func()
+	switch g.intn(4) {
+	case 0, 1:
+		acts = append(acts, func() { r.closeOp() })
+	case 2:
+		acts = append(acts, func() { r.feedErr(pick(g, []string{"eof", "closing", "other", "other"})) })
+	default:
+		acts = append(acts, func() { r.feedBad(pick(g, []string{"garbage", `{"jsonrpc":`, "[1,"})) })
+	}
+	for _, op := range s.liveOps() {
+		op := op
+		if g.chance(1, 3) {
+			acts = append(acts, func() { r.ctxCancel(op.n) })
+		}
+	}
+	if len(known) > 0 {
+		for i := 1 + g.intn(3); i > 0; i-- {
+			acts = append(acts, func() { s.feedReplies([]string{pick(g, known)}) })
+		}
+	}
+	if g.chance(1, 3) {
+		acts = append(acts, s.startRandomOp)
+	}
+	for i := len(acts) - 1; i > 0; i-- {
+		j := g.intn(i + 1)
+		acts[i], acts[j] = acts[j], acts[i]
+	}
+	for _, a := range acts {
+		a()
+	}
+}
+
+func (s *cliScen) raceRun() {
+	g := s.g
+	rounds := 2 + g.intn(4)
+	for i := 0; i < rounds; i++ {
+		switch x := g.intn(10); {
+		case x < 5:
+			s.duelRound()
+		case x < 7:
+			s.burstRound()
+		default:
+			k := 2 + g.intn(5)
+			s.total, s.stepNo = 2*k, 0 // the stop-causing actions are kept for stopRound
+			for j := 0; j < k; j++ {
+				s.walkStep()
+			}
+		}
+		if g.chance(1, 2) {
+			s.r.settle()
+		}
+	}
+	if g.chance(1, 2) {
+		s.stopRound()
+	}
 }
 
 var _ = fmt.Sprint
